@@ -119,7 +119,8 @@ class RngAnalysis:
                     for call in header_calls(node):
                         k = self.classify(fi, call)
                         if k == "seed":
-                            ok = len(call.args) == 1 and self._const_int(fi, call.args[0])
+                            sargs = list(call.args) + [k.value for k in call.keywords if k.arg == "seed"]
+                            ok = len(sargs) == 1 and self._const_int(fi, sargs[0])
                             seeds.append((node, call, ok))
                             if not ok:
                                 self.seed_problems.append((fi, call))
